@@ -271,7 +271,7 @@ def chain_ctor(ctx):
     if inner1 is not None:
         inner2 = build([inner1, d])
     outer = build([a, inner2, e]) if inner2 is not None else None
-    ctx.oblige("C08/Chain.merge_chains/struct/nested_chain_built", outer is not None, [], props, kind="struct", fn=q + ".merge_chains")
+    ctx.oblige("C08/Chain.merge_chains/struct/nested_chain_built", outer is not None, [], props, kind="applicability", fn=q + ".merge_chains")
     if outer is not None:
         pm = [p for p in it.explore(lambda: cls.lookup("merge_chains")(outer)) if p.outcome == "return"]
         okm = len(pm) == 1 and len(pm[0].value.bijections) == 5 and all(x is y for x, y in zip(pm[0].value.bijections, (a, b, c, d, e)))
@@ -311,7 +311,7 @@ def partial_check(ctx):
     o = Obj(cls, bijection=AbsBij(z3.Const("b", BIJ), shape=SymTuple(child)), idxs="idxs", shape=shp)
     paths = it.explore(lambda: cls.lookup("__check_init__")(o))
     ok, bad = by_outcome(paths)
-    ctx.oblige("C13/Partial.__check_init__/struct/both_outcomes", len(ok) >= 1 and len(bad) >= 1, [], props, kind="struct", fn=q + ".__check_init__")
+    ctx.oblige("C13/Partial.__check_init__/struct/both_outcomes", len(ok) >= 1 and len(bad) >= 1, [], props, kind="applicability", fn=q + ".__check_init__")
     if not (len(made) >= 1 and all(z.shape_arg is shp and getattr(z, "idx", None) == "idxs" for z in made)):
         from fjvc.interp import Untranslatable
         raise Untranslatable("Partial.__check_init__ computes the indexed shape in a way the contract does not model")
